@@ -4,6 +4,9 @@ tests; record tests_pass in tools/automut_last.json and print the survivors."""
 import sys, os, json, subprocess, tempfile, shutil
 from concurrent.futures import ThreadPoolExecutor
 todo = json.load(open(sys.argv[1]))
+WANT = set(json.load(open("/root/.vp/BASELINE.json"))["stable_pass"])
+ENV = dict(os.environ, GOFLAGS="-mod=mod", GOPROXY="off", GOSUMDB="off", GOTOOLCHAIN="local")
+ENV.pop("GOWORK", None)
 d = json.load(open("/verif/tools/automut_last.json"))
 def target(m):
     rel = os.path.basename(os.path.dirname(m))
@@ -13,14 +16,33 @@ def stage2(m):
     try:
         subprocess.run(["rsync", "-a", "--exclude", ".git", "/repo/", T + "/"], check=True)
         shutil.copy(m, os.path.join(T, target(m)))
-        r = subprocess.run(["/verif/tools/baseline.py", T], capture_output=True, text=True, timeout=1800)
-        return m, r.returncode == 0, (r.stdout.strip().splitlines() or ["?"])[-1]
+        passed = set()
+        for attempt in range(3):
+            cmd = ["go", "test", "-json", "-vet=off", "-count=1", "-timeout", "4m"]
+            if attempt >= 1:
+                names = sorted({k.split("::")[1] for k in WANT - passed})
+                cmd += ["-run", "^(" + "|".join(names) + ")$"]
+            try:
+                out = subprocess.run(cmd + ["./..."], cwd=T, env=ENV, capture_output=True, text=True, timeout=400).stdout
+            except subprocess.TimeoutExpired:
+                out = ""
+            for line in out.splitlines():
+                try:
+                    ev = json.loads(line)
+                except Exception:
+                    continue
+                if ev.get("Test") and "/" not in ev["Test"] and ev.get("Action") == "pass":
+                    passed.add(ev["Package"] + "::" + ev["Test"])
+            if WANT <= passed:
+                break
+        missing = sorted(WANT - passed)
+        return m, not missing, "missing: " + ",".join(x.split("::")[1] for x in missing[:4])
     except subprocess.TimeoutExpired:
         return m, False, "timeout"
     finally:
         shutil.rmtree(T, ignore_errors=True)
 n = 0
-with ThreadPoolExecutor(max_workers=5) as ex:
+with ThreadPoolExecutor(max_workers=8) as ex:
     for m, passed, last in ex.map(stage2, todo):
         d["mutants"][m]["tests_pass"] = passed
         d["mutants"][m]["tests"] = last
